@@ -5,7 +5,7 @@ spec/Parser.tla is the fault model (mutation descriptors per length class) and t
 MC_ParserGen is the generator: TLC enumerates every descriptor for the length classes of the
 valid encodings the real encoders produced (and computes Apply for a test encoding, against which
 the harness' apply() is compared for equality); harness bin c15 applies the descriptors and runs
-every parser call in a child process (RLIMIT_AS 1 GiB, watchdog: 10 s of CPU time or 120 s blocked, catch_unwind); Trace_Parser
+every parser call in a child process (RLIMIT_AS 1 GiB, watchdog: 60 s of CPU time or 300 s blocked, catch_unwind); Trace_Parser
 validates one batch event per (parser, expected-length variant, encoding, descriptor kind):
 n_cases must equal the size of the descriptor class computed by TLC, the outcomes must add up,
 and no outcome other than ok / err may occur.
@@ -153,7 +153,7 @@ def run(ctx):
     ctx.assumptions += [
         "TLC enumerates the descriptors and judges the recorded outcomes; the harness only applies descriptors (its apply() is compared with TLC's Apply on a 70-byte test encoding every run)",
         "a huge allocation is observed as a failed allocation under RLIMIT_AS = 1 GiB (outcome oom); allocations below the limit are not flagged",
-        "timeout = 10 s of process CPU time inside one call (or 120 s blocked); wall time is not used because the sandbox stalls for seconds under load",
+        "timeout = 60 s of process CPU time inside one call (or 300 s blocked); wall time is not used because the sandbox stalls for seconds under load",
         "after 3 process-killing cases (2 timeouts) in one batch the rest of that batch is skipped and reported as skipped, never as passed",
         "valid encodings come from the real encoders on 2 (quick) / 4 (thorough) payloads; string inputs (hex, base64) are passed through from_utf8_lossy",
         "parsers that rebuild a 257x4096 decode table per call (huff.ctx.decode_xN / decode_with_interleaving) and the file-backed loaders (MmapVec, ZReorderMap, load_from_file, from_file) get raw strings up to length 1 only and, in the quick tier, no window x truncation combinations",
